@@ -161,6 +161,21 @@ theorem writeFile_ok {t t' : Tree} {p : Path} {c : List Nat} (h : writeFile t p 
           · cases hq
           · exact hq
 
+/-- after a file was written, all its ancestors exist -/
+theorem writeFile_ancestors {t t' : Tree} {p : Path} {c : List Nat} (h : writeFile t p c = .ok t') (q : Path)
+    (hq : isAncestor q p = true) : t'.get q ≠ none := by
+  unfold writeFile at h
+  split at h
+  · cases h
+  · split at h
+    · cases h
+    · cases h
+      simp only
+      split
+      · simp
+      · simp only [hq, Bool.true_and]
+        cases hg : t.get q <;> simp
+
 /-- the kind of an existing path never changes, nothing is removed -/
 def KeepsKinds (t t' : Tree) : Prop := ∀ q n, t.get q = some n → ∃ n', t'.get q = some n' ∧ n'.kind = n.kind
 
